@@ -37,6 +37,8 @@ type ContCase struct {
 	Phases    []Phase
 	Dig       *DigProfile
 	CommitEvery int
+	EvictEvery  int // every n-th periodic commit is followed by DropCache (0 = never)
+	ReopenEvery int // every n-th periodic commit is followed by a full reopen from the ledger (0 = never)
 	Relaxed   bool
 	Workers   int
 	Limit     uint32 // collision limit (0 = leave default)
@@ -136,6 +138,14 @@ func runContainerCase(c *CaseCtx, cc *ContCase) (*CaseResult, *World, *Node) {
 					if err := cc.AfterCommit(w, root); err != nil {
 						return finish(err)
 					}
+				}
+				ncommit := w.opCount / cc.CommitEvery
+				if cc.ReopenEvery > 0 && ncommit%cc.ReopenEvery == 0 && len(w.detached) == 0 {
+					if err := w.Reopen(); err != nil {
+						return finish(err)
+					}
+				} else if cc.EvictEvery > 0 && ncommit%cc.EvictEvery == 0 {
+					w.DropCache()
 				}
 			}
 		}
